@@ -156,7 +156,7 @@ func (C04) Explore(x *kernel.Explorer, seed uint64) {
 			"chunk": int64(r.Intn(4)), "colseed": int64(r.Uint32()), "stranger": int64(r.Intn(2))}}
 		n := 2 + r.Intn(8)
 		for j := 0; j < n; j++ {
-			kind := r.Pick("insert", "insert", "insert-multi", "insert-nocols", "update", "select", "select-star", "insert-returning")
+			kind := r.Pick("insert", "insert", "insert-multi", "insert-nocols", "update", "select", "select-star", "insert-returning", "db-error")
 			plan.Ops = append(plan.Ops, kernel.Op{ID: j + 1, Kind: kind,
 				A: []int64{int64(r.Intn(2)), int64(r.Intn(3)), int64(r.Intn(2)), int64(r.Intn(1000))}})
 		}
@@ -279,6 +279,10 @@ func (C04) Run(t *testing.T, plan *kernel.Plan, keepLog bool) *kernel.Result {
 				if op.Kind == "insert-returning" {
 					st.SQL += " RETURNING " + strings.Join(colNames, ", ")
 				}
+			case "db-error":
+				// a statement the database answers with an error (unknown table)
+				st.SQL = fmt.Sprintf("SELECT id, note FROM no_such_table WHERE id = %d", op.Arg(3, 0))
+				st.Extended = false
 			case "update":
 				if len(rows) == 0 {
 					continue
